@@ -303,6 +303,12 @@ func wholeDocSelect(xmlText, xp string) ([][]string, error) {
 	return out, nil
 }
 
+func sortedEnc(a [][]string) [][]string {
+	out := append([][]string(nil), a...)
+	sort.Slice(out, func(i, j int) bool { return strings.Join(out[i], "\x00") < strings.Join(out[j], "\x00") })
+	return out
+}
+
 func sameEnc(a, b [][]string) bool {
 	x, _ := json.Marshal(a)
 	y, _ := json.Marshal(b)
@@ -338,7 +344,8 @@ func c04Replay(args []string) int {
 			}
 			// binding of xpath-lite: the real engine on the fully loaded document must select what the spec selects
 			whole, e := wholeDocSelect(xmlText, xp)
-			if e != nil || !sameEnc(whole, expSel) {
+			// a selection is a set: the engine lists the matches of `//b/*` context by context, not in document order
+			if e != nil || !sameEnc(sortedEnc(whole), sortedEnc(expSel)) {
 				specMismatch++
 				if specMismatch < 5 {
 					emit(M{"kind": "spec_mismatch", "xml": xmlText, "xpath": xp, "spec": expSel, "engine": whole, "err": fmt.Sprint(e)})
